@@ -54,11 +54,14 @@ CHECKS = {
              'all 65536 RGB565 values, and decode(tile(pixels)) = expand(pixels) for whole icons; seed database save->load; '
              'DIFI / IVFC / DPFS value->bytes->value; NCSD header image->value->image; config savegame: load(to_bytes(blocks)) = blocks '
              'for every block list the strict table allows (and image->value->image for canonical images), set_block/get_block '
-             'laws incl. the default flags, the typed accessors (user name, RTC offset, system model) setter->getter.  The backward '
-             'LZSS decoder is modelled and compared with pyctr on outputs of a reference compressor in the harness (pyctr has no '
-             'compressor; that round trip is decided by the comparison, the decoder\'s termination and bounds are C19 theorems).',
+             'laws incl. the default flags, the typed accessors (user name, RTC offset, system model) setter->getter.  Backward LZSS: '
+             'decompress(encodeFile P tokens pad) = P ++ expand(tokens) for EVERY head, token list (literals / back references incl. '
+             'overlapping ones, maximum distance and length) and padding that meets the decidable compressor discipline validB '
+             '(C20_lzss_roundtrip, proved by a decoding invariant over the in-place buffer); pyctr has no compressor, so the '
+             'reference compressor of the harness is tied to the theorem on every run: its token list laid out by the Lean encoder '
+             'must be byte-identical to its own image and satisfy validB, and pyctr must decompress it to the original.',
         note=COMMON_NOTE + 'Python utf-16le codec = library semantics (strings as code-unit lists with a validity predicate); strings '
-             'with NUL at either end are outside the round trip (strip); the reference compressor is greedy and in-place-safe.',
+             'with NUL at either end are outside the round trip (strip); the reference compressor is greedy and in-place-safe (its outputs are checked against validB, not assumed).',
         technique='Lean 4 proof (algebraic round trips, exhaustive kernel evaluation) + model/implementation correspondence',
         design='§4 C20'),
     'C16': dict(
@@ -244,7 +247,8 @@ CHECKS = {
         text='Theorems: the MSB-first content index round-trips for every set of indices; 64-byte alignment of the '
              'cumulative offsets; title-key recovery from the ticket (given D∘E = id), dev common key 0; detection of '
              'an active content the TMD lacks; content regions and IVs; content view = CBC over window (C02∘C09); '
-             'heap-level engine isolation.  Tied to CIAReader by differential execution on archives from independent '
+             'heap-level engine isolation; the title key of a ticket (and whether loading it raises) is independent of every ticket '
+             'the engine loaded before (C05_titlekey_history).  Tied to CIAReader by differential execution on archives from independent '
              'builders (size residues mod 64, presence bitmaps incl. second index byte, encrypted/plain, common key '
              '0-5, retail/dev, start offsets) with monitors on geometry, title key, selection, content bytes and '
              'nested readers read in interleaved order (engine identity checked).',
